@@ -21,9 +21,12 @@ pub fn gen_items(rng: &mut Rng, max_items: usize, chunk: usize, max_payload: usi
     let mut ts: u32 = rng.u32_boundary();
     let mut items = Vec::with_capacity(n);
     for _ in 0..n {
-        let step = match rng.below(8) {
+        let step = match rng.below(11) {
             0 => 0,
             1 => 33,
+            8 => 0xFFFFFF,
+            9 => ts,            // new timestamp = 2 x previous
+            10 => 33,
             2 => 0xFFFF_FFFF, // backwards
             3 => 0x1000000,
             4 => rng.u32(),
